@@ -8,9 +8,11 @@ cd /verif
 NB=$HOME/.rustup/toolchains/nightly-x86_64-unknown-linux-gnu/lib/rustlib/x86_64-unknown-linux-gnu/bin
 export CARGO_NET_OFFLINE=true
 T=/verif/.build/target-cov
+mkdir -p .build/cov-build
+export LLVM_PROFILE_FILE=/verif/.build/cov-build/b-%p-%m.profraw   # build scripts and proc macros are instrumented too: keep their profiles out of /repo
 (cd harness && RUSTFLAGS="-C instrument-coverage" CARGO_TARGET_DIR=$T cargo +nightly build --offline 2>&1 | tail -1)
 RUSTFLAGS="-C instrument-coverage" CARGO_TARGET_DIR=$T cargo +nightly build --offline --bin pytest-language-server --manifest-path /repo/Cargo.toml 2>&1 | tail -1
-rm -rf .build/cov; mkdir -p .build/cov
+rm -rf .build/cov .build/cov-build; mkdir -p .build/cov
 export PLSV_BIN_OVERRIDE=$T/debug/plsv PLSV_SERVER_OVERRIDE=$T/debug/pytest-language-server
 export LLVM_PROFILE_FILE=/verif/.build/cov/p-%p-%m.profraw
 for p in ${@:-C01 C02 C03 C04 C05 C06 C07 C08 C11 C13 C14 C15 C16 C17 C18 C19 C20}; do ./check $p quick > /dev/null 2>&1 || echo "$p rc=$?"; done
